@@ -845,10 +845,11 @@ func histories() [][]hist.Op {
 		dense = append(dense, hist.Op{K: "attr", Path: "/t", Name: fmt.Sprintf("a%d", i), A: &hist.AttrVal{Kind: "str", N: 20, Seed: i}})
 	}
 	dense = append(dense, hist.Op{K: "delattr", Path: "/t", Name: "a3"}, hist.Op{K: "resize", Path: "/t", Dims: []uint64{7}}, hist.Op{K: "write", Path: "/t", Seed: 2, Mode: 1})
+	first := []hist.Op{{K: "group", Path: "/g"}, {K: "dataset", Path: "/g/d", D: &hist.DSpec{Type: "i32", Dims: []uint64{5}}}, {K: "write", Path: "/g/d", Seed: 1, Mode: 1},
+		{K: "attr", Path: "/g/d", Name: "a", A: &hist.AttrVal{Kind: "f64", Seed: 1}}, {K: "hard", Path: "/l", Target: "/g/d"}, {K: "soft", Path: "/s", Target: "/g"},
+		{K: "attr", Path: "/g", Name: "ga", A: &hist.AttrVal{Kind: "i32", Seed: 2}}, {K: "densegroup", Path: "/dg", Links: [][2]string{{"x", "/g/d"}}}}
 	return [][]hist.Op{
-		{{K: "group", Path: "/g"}, {K: "dataset", Path: "/g/d", D: &hist.DSpec{Type: "i32", Dims: []uint64{5}}}, {K: "write", Path: "/g/d", Seed: 1, Mode: 1},
-			{K: "attr", Path: "/g/d", Name: "a", A: &hist.AttrVal{Kind: "f64", Seed: 1}}, {K: "hard", Path: "/l", Target: "/g/d"}, {K: "soft", Path: "/s", Target: "/g"},
-			{K: "attr", Path: "/g", Name: "ga", A: &hist.AttrVal{Kind: "i32", Seed: 2}}, {K: "densegroup", Path: "/dg", Links: [][2]string{{"x", "/g/d"}}}},
+		first,
 		dense,
 		// variable-length data spanning several global heap collections (elements of up to 9000 bytes)
 		{{K: "dataset", Path: "/v", D: &hist.DSpec{Type: "vl:str", Dims: []uint64{30}}}, {K: "write", Path: "/v", Seed: 5},
@@ -861,7 +862,22 @@ func histories() [][]hist.Op {
 			{K: "dataset", Path: "/big", D: &hist.DSpec{Type: "f64", Dims: []uint64{140000}}}, {K: "write", Path: "/big", Seed: 3, Mode: 1}, {K: "write", Path: "/big", Seed: 50, Mode: 1},
 			{K: "dataset", Path: "/a", D: &hist.DSpec{Type: "vl:str", Dims: []uint64{3}}}, {K: "write", Path: "/a", Seed: smallVL()},
 			{K: "dataset", Path: "/b", D: &hist.DSpec{Type: "vl:str", Dims: []uint64{8}}}, {K: "write", Path: "/b", Seed: bigVL()}},
+		// the first history in a file with the version 0 superblock (other creation code, fixed-address root group)
+		append([]hist.Op{{K: "sb0"}}, first...),
+		// a second session on an object in dense attribute storage: overwrite with another size, a new name, a delete
+		append(append([]hist.Op{}, dense[:13]...), hist.Op{K: "reopen"},
+			hist.Op{K: "attr", Path: "/t", Name: "a2", A: &hist.AttrVal{Kind: "str", N: 33, Seed: 77}},
+			hist.Op{K: "attr", Path: "/t", Name: "znew", A: &hist.AttrVal{Kind: "f64", Seed: 5}},
+			hist.Op{K: "delattr", Path: "/t", Name: "a5"}),
 	}
+}
+
+// splitSB takes the superblock version marker off a history.
+func splitSB(h []hist.Op) (int, []hist.Op) {
+	if len(h) > 0 && h[0].K == "sb0" {
+		return 0, h[1:]
+	}
+	return 2, h
 }
 
 // smallVL / bigVL: data seeds for which every element of a 3-element list is short, resp. at least three elements of an
@@ -922,12 +938,18 @@ func runHistoryWithFault(h []hist.Op, op string, k int, noRetry ...bool) (calls 
 		return nil
 	}
 	defer func() { writer.VerifFaultHook = nil }()
-	ex, err := hist.NewExec(file, 2)
+	sbv, h := splitSB(h)
+	ex, err := hist.NewExec(file, sbv)
 	if err != nil {
 		if fired {
 			return calls, "CreateForWrite", "error", nil
 		}
 		return calls, "", "setup-error", nil
+	}
+	if fired {
+		// the creation reported success although one of its writes was refused: everything from here on, and the file at the
+		// end, must be what the fault-free run gives
+		firedIn, outcome = "CreateForWrite", "nil"
 	}
 	defer func() {
 		writer.VerifFaultHook = nil
@@ -1248,6 +1270,9 @@ func versionsOf(h []hist.Op, p string) [][]uint64 {
 		file := filepath.Join(vt.GetEnv().Scratch, fmt.Sprintf("wfv-%d.h5", os.Getpid()))
 		if ex, err := hist.NewExec(file, 2); err == nil {
 			for _, q := range h[:i+1] {
+				if q.K == "sb0" {
+					continue
+				}
 				ex.Apply(q)
 			}
 			ex.Close()
